@@ -666,6 +666,32 @@ def rule_conv(ctx):
                 return r
             if srcs and all(x == "self.children" for x in srcs):
                 rvc = ast.parse(good, mode="eval").body
+        # operand list accumulated in a loop (`ops = []; for i in self.children: ops.append(i.to_json_like())`):
+        # exactly one entry per child on every path; splicing a child's own operand list in (extend / +=)
+        # flattens a & (b & c) into [a, b, c], which the reader's left fold rebuilds as (a & b) & c (seed C11-m9)
+        if rvc is None and len(rets) == 1 and isinstance(rets[0].value, ast.Dict) and len(rets[0].value.values) == 1 and isinstance(rets[0].value.values[0], ast.Name):
+            lst = rets[0].value.values[0].id
+            splices = [n for n in ast.walk(comb.node)
+                       if (isinstance(n, ast.Call) and isinstance(n.func, ast.Attribute) and isinstance(n.func.value, ast.Name) and n.func.value.id == lst and n.func.attr in ("extend", "insert", "__iadd__"))
+                       or (isinstance(n, ast.AugAssign) and isinstance(n.target, ast.Name) and n.target.id == lst)]
+            inst["operand list"] = {lst: "accumulated in a loop", "splices": [norm(s) for s in splices]}
+            if splices:
+                r.fail(Finding("R-CONV", "R-CONV|conditions.ConditionBinaryOp.to_json_like|operands", f"{comb.file}:{splices[0].lineno}",
+                               f"`{norm(splices[0])[:100]}` splices several entries into the serialised operand list `{lst}` for one child: a nested combination with the same operator is "
+                               f"flattened (a & (b & c) -> [a, b, c]), the reader's left fold rebuilds (a & b) & c, which is not equal to the original", []))
+                return r
+            loops = [n for n in ast.walk(comb.node) if isinstance(n, ast.For) and norm(n.iter) == "self.children" and isinstance(n.target, ast.Name)]
+            inits = [a for a in ast.walk(comb.node) if isinstance(a, ast.Assign) and any(isinstance(t, ast.Name) and t.id == lst for t in a.targets)]
+
+            def _one_append(body, var):
+                # every path through `body` appends `<var>.to_json_like()` exactly once
+                if len(body) == 1 and isinstance(body[0], ast.Expr) and norm(body[0].value) == f"{lst}.append({var}.to_json_like())":
+                    return True
+                if len(body) == 1 and isinstance(body[0], ast.If) and body[0].orelse:
+                    return _one_append(body[0].body, var) and _one_append(body[0].orelse, var)
+                return False
+            if len(loops) == 1 and len(inits) == 1 and norm(inits[0].value) == "[]" and not loops[0].orelse and _one_append(loops[0].body, loops[0].target.id):
+                rvc = ast.parse(good, mode="eval").body
     if rvc is not None and canon(rvc) == good:
         r.ok()
     elif rvc is not None and isinstance(rvc, ast.Dict) and len(rvc.values) == 1 and isinstance(rvc.values[0], (ast.ListComp, ast.List)):
